@@ -139,6 +139,11 @@ func ConfigureServerAndConfig(s *fasthttp.Server, tlsConfig *tls.Config) *Server
 		s: s,
 	}
 
+	// The same defaults ConfigureServer applies. Without them the limits were
+	// all zero: a MaxConcurrentStreams of 0 refuses every stream, and a
+	// MaxHeaderListSize of 0 switches the header list limit off.
+	s2.cnf.defaults()
+
 	s.NextProto(H2TLSProto, s2.ServeConn)
 	tlsConfig.NextProtos = append(tlsConfig.NextProtos, H2TLSProto)
 
